@@ -207,14 +207,12 @@ ImplLoading(f, t, m) ==
      IF (~Frac(t[1]) /\ BadUnit(t[2], LUnits(t[1]))) \/ (~Frac(f[1]) /\ BadUnit(f[2], LUnits(f[1]))) THEN PE
      ELSE IF Frac(f[1]) /\ Frac(t[1]) THEN Val(ImplLVec(f, t, m))
      ELSE IF Frac(f[1]) \/ Frac(t[1]) THEN
-          \* the material basis is used as a dictionary key without any check
-          IF MatAsLoad(m[1]) \notin (LBases \ {"fraction","percent"}) THEN Other("KeyError/TypeError")
-          ELSE IF m[2] \notin LUnits(MatAsLoad(m[1])) THEN Other("KeyError")
+          \* _check_basis / _check_unit on the material arguments (since the c_loading repair)
+          IF BadBasis(m[1], MBases) \/ BadUnit(m[2], MUnits(m[1])) THEN PE
           ELSE Val(ImplLVec(f, t, m))
      ELSE Val(ImplLVec(f, t, m))
-  ELSE IF ~Falsy(t[2]) /\ f[2] # t[2] THEN
-     IF Frac(f[1]) THEN Other("TypeError")          \* c_unit(None, ...)
-     ELSE IF BadUnit(t[2], LUnits(f[1])) \/ BadUnit(f[2], LUnits(f[1])) THEN PE
+  ELSE IF ~Falsy(t[2]) /\ f[2] # t[2] /\ ~Frac(f[1]) THEN
+     IF BadUnit(t[2], LUnits(f[1])) \/ BadUnit(f[2], LUnits(f[1])) THEN PE
      ELSE Val(ImplLVec(f, t, m))
   ELSE Val(Zero)
 
